@@ -76,7 +76,11 @@ fn gen(ctx: &GenCtx, i: u64, local: bool) -> Option<Run> {
     let now = gen_now(&mut r);
     let key = rb.key(key_for(proto, &mut r));
     let big_ok = layer != Layer::Core || r.chance(1, 2);
-    let mlen = if r.chance(1, 40) && big_ok { gen_len(&mut r, true) } else { gen_len(&mut r, false) };
+    let mlen = match r.below(24) {
+        0 if big_ok => *r.pick(&[4095usize, 4096, 4097, 65_535, 65_536, 65_537, 100_000]),
+        1 if big_ok => 256 + r.usize(70_000),
+        _ => gen_len(&mut r, false),
+    };
     let message = text!(r, mlen);
     let footer = gen_opt_text(&mut r);
     let assertion = if proto.has_assertion() { gen_opt_text(&mut r) } else { None };
